@@ -288,6 +288,11 @@ Lemma crun_cons x stk c p :
   crun x stk (c :: p) = match cstep x stk c with Some (x', stk') => crun x' stk' p | None => None end.
 Proof. reflexivity. Qed.
 
+Lemma scan_string_other c r : Byte.eqb c x22 = false -> Byte.eqb c x5c = false ->
+  scan_string (c :: r) = if (bn c <? 32)%N then None else
+                         match scan_string r with Some (b, rest) => Some (c :: b, rest) | None => None end.
+Proof. destruct c; try discriminate; reflexivity. Qed.
+
 (* the body is a literal prefix of the input, and the automaton walks through it and the closing quote
    with op scanContinue *)
 Lemma string_trace stk : forall (n : nat) s b rest, (length s <= n)%nat -> scan_string s = Some (b, rest) ->
@@ -321,10 +326,7 @@ Proof.
       rewrite crun_cons, (cstr_hex _ St_stateInStringEscU12) by auto.
       rewrite crun_cons, (cstr_hex _ St_stateInStringEscU123) by auto.
       rewrite crun_cons, (cstr_hex _ St_stateInString) by auto 6. reflexivity. }
-    assert (scan_string (c :: r) = if (bn c <? 32)%N then None else
-              match scan_string r with Some (b, rest) => Some (c :: b, rest) | None => None end) as E.
-    { destruct c; try discriminate; reflexivity. }
-    rewrite E in H. clear E. destruct (bn c <? 32)%N eqn:Ct; [discriminate|].
+    rewrite (scan_string_other c r Q Bs) in H. destruct (bn c <? 32)%N eqn:Ct; [discriminate|].
     refine (G r [c] eq_refl L _ H). rewrite crun_cons, cstr_plain by assumption. reflexivity.
 Qed.
 
